@@ -4,6 +4,9 @@ mod gen;
 mod k_flat;
 mod k_forms;
 mod k_order;
+mod k_vars;
+mod k_lex;
+mod k_damage;
 mod shrink;
 mod sym;
 
@@ -21,6 +24,9 @@ fn run_line(line: &str) -> String {
     match f[0] {
         "flat" => k_flat::run(&f[1..]),
         "forms" => k_forms::run(&f[1..]),
+        "vars" => k_vars::run(&f[1..]),
+        "lex" => k_lex::run(&f[1..]),
+        "damage" => k_damage::run(&f[1..]),
         "order" => k_order::run_order(&f[1..]),
         "track" => k_order::run_track(&f[1..]),
         _ => "BADKIND".into(),
@@ -47,6 +53,9 @@ fn main() {
                 let line = match kind {
                     "flat" => k_flat::gen(&mut rng, tier, i, &mut stats),
                     "forms" => k_forms::gen(&mut rng, tier, i, &mut stats),
+                    "vars" => k_vars::gen(&mut rng, tier, i, &mut stats),
+                    "lex" => k_lex::gen(&mut rng, tier, i, &mut stats),
+                    "damage" => k_damage::gen(&mut rng, tier, i, &mut stats),
                     "order" => k_order::gen(&mut rng, tier, i, &mut stats),
                     "orderx" => k_order::gen_exhaustive(i),
                     "track" => k_order::gen_track(&mut rng, tier, i, &mut stats),
